@@ -5,6 +5,8 @@
 import Edn.Model.Dump
 import Edn.Model.Arena
 import Edn.Model.Registry
+import Edn.Model.Builder
+import Edn.Model.Uniq
 
 open Edn.Model
 
@@ -90,6 +92,19 @@ def runArena (toks : List String) : String :=
     | none => "null "
     | some g => s!"b{g.blk}+{g.off}/{caps.getD g.blk 0} "
   String.join outs ++ s!"blocks={a.blocks.length}"
+
+/-- `B <initcap> <n> <schedule of 0/1 or ->` : the life of a collection builder -/
+def runBuilder (toks : List String) : String :=
+  match toks with
+  | [ic, n, sch] =>
+    let xs := List.range n.toNat!
+    let sched := if sch == "-" then [] else sch.toList.map (· == '1')
+    match Builder.run ic.toNat! xs sched with
+    | .addFailed i => s!"addfail {i}"
+    | .finished c none => s!"null count={c}"
+    | .finished c (some (.heap, ys)) => s!"heap count={c} " ++ (if ys == xs then "ok" else "CORRUPT")
+    | .finished c (some (.stack, _)) => s!"STACK count={c}"
+  | _ => "bad-line"
 
 def parseOp (t : String) : Char × String × Nat :=
   let op := t.front
@@ -267,6 +282,19 @@ def runScript (cfg : Cfg) (toks : List String) : String :=
              b01 dup :: go regs' ts
            | none => "0" :: go regs ts)
         | ["t", p] => (match look p with | some x => dumpVal cfg false 0 x | none => "(null)") :: go regs ts
+        | [op, p] =>
+          -- d<c><m>: edn_has_duplicates with the table (c) / scratch copy (m) allocation failing (0) or not (1)
+          if op == "d00" || op == "d01" || op == "d10" || op == "d11" then
+            let (k, path) := parsePath p
+            (match look p with
+             | some v =>
+               let (dup, ys) := hasDuplicatesF cfg (op == "d10" || op == "d11") (op == "d01" || op == "d11") (children v)
+               let regs' := match regs.getD k none with
+                 | some root => regs.setIfInBounds k (some (modifyAt root path fun x => setChildren x ys))
+                 | none => regs
+               b01 dup :: go regs' ts
+             | none => "0" :: go regs ts)
+          else "bad-op" :: go regs ts
         | _ => "bad-op" :: go regs ts
   "\t".intercalate (go (Array.replicate 16 none) toks)
 
@@ -282,6 +310,7 @@ def step (cfg : Cfg) (line : String) : Cfg × String :=
   | "N" :: rest => (cfg, runNum cfg rest)
   | "Q" :: rest => (cfg, runScript cfg rest)
   | "A" :: rest => (cfg, runArena rest)
+  | "B" :: rest => (cfg, runBuilder rest)
   | "G" :: rest => (cfg, runRegistry rest)
   | "X" :: rest => (cfg, runExternal rest)
   | [""] => (cfg, "")
